@@ -119,6 +119,71 @@ theorem extraction_consumes_helpers (es out : List Ev) (h : extractAll es = .ok 
   obtain ⟨_, _, r⟩ := extractAll_inv outInv_noF es out (fun _ _ _ _ _ => trivial) (fun _ _ _ => trivial) h
   exact r
 
+/-! ### completeness, under the two hypotheses that the current code needs -/
+
+/-- all helper events of CollGroup `g`, in arrival order: the queue the group holds once everything has arrived -/
+def groupQueue (g : String) (input : List Ev) : List Q :=
+  match prepareAll input with
+  | .ok a => qsOf g a
+  | .error _ => []
+
+/-- `detect_final` holds of no *strict* prefix of the group's events (false e.g. of a ≥ 3-rank chain group
+whose receives are posted just in time: see `prefix_final_loses_multicast`) -/
+def NoPrefixFinal (E : List Q) : Prop := ∀ p s, p ++ s = E → detectFinal p = true → s = []
+
+/-- a sufficient condition for "no stale drop": the trace is shorter than `4 · drop_threshold` = 20 s -/
+def WithinStaleWindow (input : List Ev) : Prop := ∃ t0 : Rat, ∀ x ∈ input, t0 ≤ x.ts ∧ x.ts ≤ t0 + 20000000
+
+/-- **Every matched send of a detected group gets exactly one pair (partial: two hypotheses).**
+Let `E` be all helper events of CollGroup `g` in arrival order (any interleaving with other groups, any
+number of groups).  If `detect_final` holds of `E` (see `complete_group_detected` for chain groups), of no
+strict prefix of `E` (`NoPrefixFinal`), and no group can go stale (`WithinStaleWindow`), then the flow
+events of `g` in the output are — as a multiset — exactly one `s`/`f` pair (ids consecutive from some
+`sq + 1`) for each send of `E` that has a DONE receive with the same sync tag on the peer it names
+(`matched E E`, in queue order), and nothing else: no send is missed, none is paired twice, and the group
+is emitted once.  Without `NoPrefixFinal` the statement is false of the current code
+(`prefix_final_loses_multicast`). -/
+theorem every_send_paired_partial (input out : List Ev) (g : String)
+    (hin : NoFlowIn input) (hk : NoHelperKeysIn input) (hwin : WithinStaleWindow input)
+    (hfin : detectFinal (groupQueue g input) = true) (hno : NoPrefixFinal (groupQueue g input))
+    (h : runFlow input = .ok out) :
+    ∃ sq, (flowsOf g out).Perm (emitPairs sq (matched (groupQueue g input) (groupQueue g input))) := by
+  obtain ⟨a, b, ha, hb, rfl⟩ := runFlow_ok h
+  obtain ⟨t0, hw⟩ := hwin
+  have hgq : groupQueue g input = qsOf g a := by simp [groupQueue, ha]
+  rw [hgq] at hfin hno ⊢
+  have ht : Tame t0 a := by
+    refine ⟨?_, ?_⟩
+    · intro e he hF
+      obtain ⟨x, hx, lx, hlx, hel⟩ := prepareAll_mem ha e he
+      rcases prepare_mem hlx e hel with ⟨hph, _⟩ | ⟨_, _, _, _, rfl⟩
+      · intro hf; exact hin x hx (by unfold isFlow at *; rw [← hph]; exact hf)
+      · simp [mkHelper, phInF] at hF
+    · intro e he q _ hq
+      obtain ⟨_, hh, _, _⟩ := toQ_ok hq
+      obtain ⟨x, hx, lx, hlx, hel⟩ := prepareAll_mem ha e he
+      rcases prepare_mem hlx e hel with ⟨_, hhlp, _⟩ | ⟨ar, hv, _, _, rfl⟩
+      · rw [hk x hx] at hhlp; rw [hhlp] at hh; cases hh
+      · simp only [mkHelper, Option.some.injEq] at hh
+        refine ⟨by simp [mkHelper, hh], ?_, ?_⟩
+        · exact (hw x hx).1
+        · exact (hw x hx).2
+  obtain ⟨sq, sq', f, hf, hp⟩ := group_emitted_whole g (qsOf g a) t0 a b ht rfl hfin hno hb
+  obtain ⟨_, hcl⟩ := buildLoop_closed _ _ _ _ _ hf
+  refine ⟨sq, ?_⟩
+  rw [← hcl]
+  have : flowsOf g (cleanup b) = flowsOf g b := by
+    simp only [flowsOf, cleanup, List.filter_filter]
+    apply List.filter_congr
+    intro x _
+    by_cases h1 : x.ph = "s"
+    · simp [h1]
+    · by_cases h2 : x.ph = "f"
+      · simp [h2]
+      · simp [h1, h2]
+  rw [this]
+  exact hp
+
 /-! ### the open finding: a strict prefix of a group is judged final
 
 Three ranks, receives posted just in time.  `g1chain` is the chain part of group `G1` (two single casts with
@@ -178,6 +243,27 @@ example : NoHelperKeysIn backToBack := by unfold NoHelperKeysIn; decide +kernel
 example : (okOf (runFlow backToBack)).map (fun out =>
     ((out.filter (fun e => e.ph = "s")).length, (out.filter (fun e => e.ph = "f")).length, out.length)) =
     some (4, 4, 20) := by decide +kernel
+/-- the hypotheses of `every_send_paired_partial` hold for both groups of the back-to-back history … -/
+example : WithinStaleWindow backToBack := ⟨0, by decide +kernel⟩
+example : detectFinal (groupQueue "G1" backToBack) = true := by decide +kernel
+/-- … `NoPrefixFinal` holds for the 2-rank group … -/
+def g3 : List Ev := [
+  mk 1 0 1300 10 5 "SenRdmaSend_1 [sync=G3_a] DmaO" "G3" "SingleCast" (some "1"),
+  mk 2 1 1400 10 6 "SenRdmaReceive_2 [sync=G3_a] DmaI" "G3" "WDone Barrier" (some "0"),
+  mk 3 1 1300 20 2 "SenRdmaSend_5 - Set BcList [sync=G3_m] DmaO" "G3" "Set BCList" (some "0"),
+  mk 4 1 1301 21 2 "SenRdmaSend_5 - Xseg to rank 0 [sync=G3_m] DmaO" "G3" "MultiCast XSEG" (some "0"),
+  mk 5 1 1300 22 6 "SenRdmaSend_5 Data [sync=G3_m] DmaO" "G3" "MultiCast" none,
+  mk 6 0 1400 20 10 "SenRdmaReceive_6 [sync=G3_m] DmaI" "G3" "WDone Barrier" (some "1")]
+example : detectFinal (groupQueue "G3" g3) = true ∧
+    (List.range 6).all (fun n => !detectFinal ((groupQueue "G3" g3).take n)) = true ∧
+    (matched (groupQueue "G3" g3) (groupQueue "G3" g3)).length = 2 := by decide +kernel
+/-- … and fails for the 3-rank group with just-in-time receives (the finding) -/
+example : ¬ NoPrefixFinal (groupQueue "G1" backToBack) := by
+  intro h
+  have := h ((groupQueue "G1" backToBack).take 4) ((groupQueue "G1" backToBack).drop 4)
+    (List.take_append_drop 4 _) (by decide +kernel)
+  revert this
+  decide +kernel
 /-- a run that raises: a sync-tagged slice without `jobhash` (KeyError) — the theorems speak about `.ok` runs only -/
 example : errOf (runFlow [{ (mk 1 0 1 10 5 "S_1 [sync=a] DmaO" "G" "SingleCast" (some "1")) with
     args := some { peer := some (.str "1"), typ := some "SingleCast" } }]) = some .key := by decide +kernel
